@@ -55,7 +55,9 @@ m = {
            "baseline_off_cmd": "cd /repo && /venv/bin/python -m pytest -ra -q -p no:cacheprovider --timeout=900 --continue-on-collection-errors",
            "source_commits": [], "add_only": True},
  "engines": [{"name": "sx", "path": "sx/", "serves_properties": built,
-              "kind_free_text": "proxy-based path-exploring symbolic executor for Python on z3 (SymInt/SymBool/SymScalar leaves, DFS by re-execution, solver decides each branch and obligation, concrete shadow run per path)"}],
+              "kind_free_text": "proxy-based path-exploring symbolic executor for Python on z3 (SymInt/SymBool/SymScalar leaves, DFS by re-execution, function summaries, solver decides each branch and obligation, concrete shadow run per path, sampled re-decision by z3 4.8.12 and cvc5)"},
+             {"name": "crosshair", "path": "xh/", "serves_properties": [p for p in ("C02", "C05", "C11") if p in built],
+              "kind_free_text": "CrossHair 0.0.110 conditions on the generic core (List[int], symbolic lengths <= 3) as a second-engine cross-check; only 'Confirmed over all paths' counts as agreement"}],
  "checks": checks,
  "not_applicable": sorted(na, key=lambda x: x["property_id"]),
  "notes": "Exit 0 = all obligations discharged and path tree exhausted; 1 = replayed counterexample (VIOLATION line); 2 = inconclusive. known_findings.json lists genuine defects (open -> KNOWN-FINDING line; fixed -> fix: commit in /repo).",
